@@ -125,24 +125,31 @@ func (c *client) PutMany(ctx context.Context, records []kvs.Record) error {
 
 func (c *client) CasByVersion(ctx context.Context, record kvs.Record) (kvs.Record, error) {
 	key := rKey(record.Key)
-	err := c.rdb.Watch(ctx, func(tx *redis.Tx) error {
-		val, err := tx.Get(ctx, key).Result()
-		if err != nil {
-			return checkErr(err)
+	expVersion := record.Version
+	for {
+		err := c.rdb.Watch(ctx, func(tx *redis.Tx) error {
+			val, err := tx.Get(ctx, key).Result()
+			if err != nil {
+				return checkErr(err)
+			}
+			r := db2rec(cast.StringToByteArray(val))
+			if r.Version != expVersion {
+				return errors.ErrConflict
+			}
+			record.Version = ulidutils.NewID()
+			buf := rec2db(&record)
+			_, err = tx.TxPipelined(ctx, func(pipe redis.Pipeliner) error {
+				_, err2 := pipe.Set(ctx, key, buf, expiration(record.ExpiresAt, time.Now())).Result()
+				return err2
+			})
+			return err
+		}, key)
+		if err == redis.TxFailedErr {
+			// the key was changed between the GET and the EXEC: look at it again to report what happened
+			continue
 		}
-		r := db2rec(cast.StringToByteArray(val))
-		if r.Version != record.Version {
-			return errors.ErrConflict
-		}
-		record.Version = ulidutils.NewID()
-		buf := rec2db(&record)
-		_, err = tx.TxPipelined(ctx, func(pipe redis.Pipeliner) error {
-			_, err2 := pipe.Set(ctx, key, buf, expiration(record.ExpiresAt, time.Now())).Result()
-			return err2
-		})
-		return err
-	}, key)
-	return record, err
+		return record, err
+	}
 }
 
 func (c *client) Delete(ctx context.Context, key string) error {
